@@ -36,9 +36,9 @@ NOT_APPLICABLE = {
 
 PROPS['C08'] = {
     'rules': [R(pc.rule_PC1), R(pc.rule_PC2), R(pc.rule_PC3), R(pc.rule_PC4), R(pc.rule_PC5), R(pc.rule_PC7),
-              R(pc.rule_PC9), R(pc.rule_GA1), R(fr.rule_FR1), R(fr.rule_FR2), R(fr.rule_FR3), R(fr.rule_FR5)],
+              R(pc.rule_PC9), R(pc.rule_GA1), R(fr.rule_FR1), R(fr.rule_FR2), R(fr.rule_FR3), R(fr.rule_FR5), R(lv.rule_LV3)],
     'floors': {'PC1': 40, 'PC2': 12, 'PC3': 5, 'PC4': 6, 'PC5': 9, 'PC7': 8, 'PC9': 14, 'GA1': 5, 'FR1': 5, 'FR2': 5,
-               'FR3': 5, 'FR5': 4},
+               'FR3': 5, 'FR5': 4, 'LV3': 7},
     'explanation': 'Decides the code-shape reasons why the label sequence of an MPyC program is schedule independent: '
                    '(PC1) no mpc_coro_no_pc coroutine performs a pc-consuming operation after its first await (callee '
                    'resolution through self./runtime./aliases/operator dunders, fixed-point consumer closure); (PC2) message '
@@ -47,7 +47,8 @@ PROPS['C08'] = {
                    'freshness and wrapping; (PC5) sender and receiver compute the same label and key their buffers by it; (PC7) '
                    'no pc-advancing operation is control-dependent on party-local data; (PC9) PRSS inputs are fresh and common; '
                    '(GA1) gather tallies are paired so that awaiting already-completed results completes; (FR1-FR5) the stream reader '
-                   'is chunking independent (see C10). Decides these clauses, '
+                   'is chunking independent (see C10); (LV3) shutdown waits for the started coroutines, installs its completion future before the '
+                   'all-party synchronisation and closes only afterwards, so termination does not depend on which party finishes first. Decides these clauses, '
                    'not the behaviour of a run.',
     'assumptions': ['_hop (Python hash of a tuple of ints / sha1) is collision free in practice',
                     'all parties run the same program text with the same public inputs',
@@ -154,14 +155,15 @@ PROPS['C09']['explanation'] += (' No receive is left unmatched at shutdown: shut
 ROUTING = ['Runtime.transfer', 'Runtime.input', 'Runtime._distribute', 'Runtime.output', 'Runtime._reshare']
 
 PROPS['C07'] = {
-    'rules': [R(ss.rule_SS6), R(ss.rule_SO1), R(ss.rule_SS4), R(mk.rule_MK4), R(mk.rule_NR1), R(pc.rule_PC6),
+    'rules': [R(ss.rule_SS6), R(ss.rule_SO1), R(ss.rule_SS4), R(mk.rule_MK4), R(mk.rule_MK3), R(mk.rule_NR1), R(pc.rule_PC6),
               R(pc.rule_PC1, scope=ROUTING)],
-    'floors': {'SS6': 8, 'SO1': 4, 'SS4': 9, 'MK4': 6, 'NR1': 1, 'PC6': 8, 'PC1': 5},
+    'floors': {'SS6': 8, 'SO1': 4, 'SS4': 9, 'MK4': 6, 'MK3': 8, 'NR1': 1, 'PC6': 8, 'PC1': 5},
     'explanation': 'Decides who sends what to whom: for output, _reshare, transfer and _distribute the (sender, receiver) pairs implied by '
                    'the send guard equal those implied by the receive enumeration, as offset intervals modulo m normalised from the '
                    'expression syntax (SS6); result slots are indexed by the position in the sender list (SO1); the x-coordinate of every '
                    'recombination point is <party received from>+1 (SS4); destinations derive only from the receivers arguments and the '
-                   'non-receiver branch yields None without recombining (MK4, NR1).',
+                   'non-receiver branch yields None without recombining (MK4, NR1); composite types forward the receivers and threshold they were given, and '
+                   'the auxiliary zero-indicators of secure floats are computed per element by a receiver (MK3).',
     'assumptions': ['sender/receiver lists contain valid, distinct party ids (API precondition)'],
     'level': 'Static routing-duality analysis (symbolic offset intervals mod m, linear forms) of the four routing coroutines plus provenance of '
              'destinations and slot indices. Decides that every receiver collects exactly the shares sent to it, attributed to the right party '
@@ -296,8 +298,8 @@ PROPS['C04'] = {
 
 
 PROPS['C03'] = {
-    'rules': [R(fx.rule_FX1), R(fx.rule_FX2), R(fx.rule_FX3), R(fx.rule_FX4), R(fx.rule_FX5)],
-    'floors': {'FX1': 60, 'FX2': 15, 'FX3': 15, 'FX4': 40, 'FX5': 7},
+    'rules': [R(fx.rule_FX1), R(fx.rule_FX2), R(fx.rule_FX3), R(fx.rule_FX4), R(fx.rule_FX5), R(fx.rule_FX6)],
+    'floors': {'FX1': 60, 'FX2': 15, 'FX3': 15, 'FX4': 40, 'FX5': 7, 'FX6': 1},
     'explanation': 'The integral flag is a static annotation handed to returnType(); the check compares, by truth tables over the atoms of the '
                    'flag expressions (resolved through reaching definitions, all()/list forms and local helpers), what each of the ~70 declarations '
                    'promises with what the gathered operands guarantee: falsifying any one operand flag must falsify the declaration, with the '
@@ -305,7 +307,8 @@ PROPS['C03'] = {
                    'callers raise for non-integral conditions (FX1). A literal True requires the result to be scaled by 2^f or to be integral by '
                    'construction (FX2). In the product coroutines the exact shift and the truncation are complementary, the exact shift is taken '
                    'only when a factor is flagged integral, and both remove the same number of bits (FX3). Flags are only ever combined by '
-                   'conjunction (FX4). The constructors infer the flag exactly (FX5).',
+                   'conjunction (FX4). The constructors infer the flag exactly (FX5). In the log-round product tree the marks are combined for exactly '
+                   'the pairs of positions that are multiplied (FX6).',
     'assumptions': ['lists passed to vector operations are homogeneous in their integral flag (API assumption stated in the code)',
                     'callers do not overwrite .integral of results (np_exp2 sets it after an explicit truncation to integers)'],
     'level': 'Static truth-table analysis of every integrality declaration and of every use of a flag to choose between exact shift and '
